@@ -431,7 +431,7 @@ def runQuery (T : STree) (nm : Naming) (inp : Input) (H? : Option Ham) (q : SExp
     let keepG : String → Bool := match keep with | .list (.atom "ids" :: r) => (strs r).contains | _ => fun _ => true
     let events := evs.filterMap decEv
     let devents := evs.filterMap decDocEv
-    if devents.any (fun | .grp _ => false | _ => true) then
+    if evs.any (fun | .atom "doc" => true | _ => false) then
       -- document-level trace: the <species> / <gene> calls are part of the recorded stream (in the order of the file)
       let r := Pyham.Sax.dstates T nm keepG fl devents {}
       let cells := (List.zip devents r.1).map fun (e, d) =>
@@ -459,7 +459,7 @@ def runQuery (T : STree) (nm : Naming) (inp : Input) (H? : Option Ham) (q : SExp
     let devents := evs.filterMap decDocEv
     -- (the <gene> calls are in the recorded stream, in the order of the file: a species section written after the groups
     -- section selects its genes after the groups were read)
-    let r := if devents.any (fun | .grp _ => false | _ => true) then Pyham.Sax.fdtrace f devents { gids := [] }
+    let r := if evs.any (fun | .atom "doc" => true | _ => false) then Pyham.Sax.fdtrace f devents { gids := [] }
              else Pyham.Sax.ftrace f (evs.filterMap decEv) { gids := filterGenes f inp.species }
     o.put "saxftr" (";".intercalate (r.1.map fun b => toString b.1 ++ "," ++ toString b.2.1 ++ "," ++ toString b.2.2.1 ++ "," ++
         toString b.2.2.2.1 ++ "," ++ (if b.2.2.2.2 then "1" else "0")) ++ "#" ++ (match r.2 with | none => "ok" | some e => "err:" ++ e.toStr))
